@@ -118,6 +118,26 @@ harness! { fn c08_ots_private_key_n24_w8() unwind 70 { ots_private::<Rec24>(Lmot
 harness! { fn c08_ots_private_key_n32_w8() unwind 70 { ots_private::<Rec32>(LmotsAlgorithm::LmotsW8, 34) }}
 harness! { fn c08_ots_private_key_n16_w4() unwind 70 { ots_private::<Rec16>(LmotsAlgorithm::LmotsW4, 35) }}
 
+/// the 265-chain parameter set (n = 32, W1): the layout of every query is checked on the fly
+harness! { fn c08_ots_private_key_n32_w1_layout() unwind 270 {
+    type H = Rec32;
+    let raw: [u8; 32] = kani::any();
+    let i: [u8; 16] = kani::any();
+    let leaf: u32 = kani::any();
+    unsafe {
+        REC_EXPECT.active = true; REC_EXPECT.i = i; REC_EXPECT.q = leaf.to_be_bytes(); REC_EXPECT.seed = raw; REC_EXPECT.n = 32; REC_EXPECT.ok = true; REC_EXPECT.count = 0;
+    }
+    let par = LmotsAlgorithm::LmotsW1.construct_parameter::<H>().unwrap();
+    let sk = generate_private_key(i, leaf.to_be_bytes(), Seed::<H>::from(raw), par);
+    unsafe {
+        assert!(REC_EXPECT.count == 265, "one digest per chain (p = 265)");
+        assert!(REC_EXPECT.ok, "every x_q[i] pre-image is I | q | u16(i) | 0xff | seed, for all 265 chain indices");
+        REC_EXPECT.active = false;
+    }
+    assert!(sk.key.as_slice().len() == 265, "265 chain start values");
+    kani::cover!(true, "reached");
+}}
+
 // ---- LM-OTS public key: K = H(I | q | 0x8080 | y_0 .. y_{p-1}), y_i = chain_i(x_i, 0 -> 2^w-1) ---
 fn chain_rec(x: &RecQuery, i: &[u8; 16], leaf: u32, id: u16, start: &[u8], from: usize, to: usize, n: usize) -> bool {
     x.kind == 1 && x.len == 23 + n && eq(&x.head[..16], i) && eq(&x.head[16..20], &leaf.to_be_bytes())
